@@ -23,6 +23,7 @@ type c17PingCase struct {
 	PerClient int      `json:"perClient"`
 	Kinds     []string `json:"kinds"` // transport of each session: inproc | tcp
 	ChanBuf   int      `json:"chanBuf"`
+	SharedIDs bool     `json:"sharedIds,omitempty"` // every other command of every session carries an id the other sessions use too
 }
 
 type c17PingObs struct {
@@ -139,6 +140,10 @@ func runC17Ping(c *c17PingCase) *c17PingObs {
 			for k := 0; k < c.PerClient; k++ {
 				req := &lime.RequestCommand{}
 				req.ID = fmt.Sprintf("p-%d-%d", si, k)
+				if c.SharedIDs && k%2 == 0 {
+					// sessions number their commands alike (1, 2, 3 ...): the same id is in flight on several sessions at once
+					req.ID = fmt.Sprintf("n-%d", k)
+				}
 				req.From = s.node
 				req.Method = lime.CommandMethodGet
 				req.SetURIString("/ping")
@@ -176,6 +181,9 @@ func runC17Ping(c *c17PingCase) *c17PingObs {
 func judgeC17Ping(c *c17PingCase, obs *c17PingObs, o *Outcome) {
 	o.Class("ping-auto-reply")
 	o.Class(fmt.Sprintf("sessions=%d", c.Sessions))
+	if c.SharedIDs {
+		o.Class("same-command-ids-on-several-sessions")
+	}
 	if len(obs.Note) >= 5 && obs.Note[:5] == "skip:" {
 		o.Class("skipped")
 		return
@@ -197,6 +205,7 @@ func TestC17Ping(t *testing.T) {
 			Sessions:  rapid.SampledFrom([]int{2, 4, 8, 16}).Draw(rt, "sessions"),
 			PerClient: rapid.IntRange(50, 600).Draw(rt, "perClient"),
 			ChanBuf:   rapid.SampledFrom([]int{1, 8, 64}).Draw(rt, "chanBuf"),
+			SharedIDs: rapid.Bool().Draw(rt, "sharedIds"),
 		}
 		c.Kinds = rapid.SampledFrom([][]string{{"inproc"}, {"tcp"}, {"inproc", "tcp"}}).Draw(rt, "kinds")
 		o := &Outcome{}
